@@ -245,9 +245,12 @@ class ComputeGraph(MultiDiGraph):
         elif backend == 'matlab':
             from pyrates.backend.matlab import MatlabBackend
             backend = MatlabBackend
-        else:
+        elif backend in (None, 'default', 'numpy'):
             from pyrates.backend.base import BaseBackend
             backend = BaseBackend
+        else:
+            raise ValueError(f"Unknown backend `{backend}`. Available backends: 'default' (or 'numpy'), 'torch', 'jax', "
+                             f"'fortran', 'julia', 'matlab'.")
 
         # backend-related attributes
         self.backend = backend(**kwargs)
